@@ -711,6 +711,29 @@ func (w *world) oracle(op string) bool {
 			}
 		}
 	}
+	for _, den := range denoms {
+		den := den
+		if !checkLocks("locks-denom", k.GetLocksDenom(ctx, den), func(l *refLock) bool { return l.denom == den }, -1) {
+			return false
+		}
+		for _, t := range ts {
+			if critical[t.UnixNano()] {
+				continue
+			}
+			t := t
+			if !checkLocks("locks-past-time-denom", k.GetLocksPastTimeDenom(ctx, den, t), func(l *refLock) bool {
+				if l.denom != den {
+					return false
+				}
+				if l.unlocking() {
+					return l.end.After(t)
+				}
+				return now.Add(l.duration).After(t)
+			}, -1) {
+				return false
+			}
+		}
+	}
 	all, _ := k.GetPeriodLocks(ctx)
 	if !checkLocks("all-locks", all, func(l *refLock) bool { return true }, -1) {
 		return false
